@@ -93,35 +93,39 @@ def apply_unified_diff(texts: dict, diff_text: str):
 
 
 def refactor_entries(pid):
-    """behaviour-preserving refactorings written by independent sub-agents (seeded/refactor): each must stay silent"""
+    """behaviour-preserving refactorings written by independent sub-agents (seeded/refactor*/): each must stay silent"""
+    import glob
     import json
     import os
-    root = os.path.join(os.path.dirname(os.path.dirname(os.path.abspath(__file__))), 'seeded', 'refactor')
-    idx = os.path.join(root, 'index.json')
-    if not os.path.exists(idx):
-        return []
-    with open(idx) as fh:
-        ids = json.load(fh).get(pid, [])
+    base = os.path.join(os.path.dirname(os.path.dirname(os.path.abspath(__file__))), 'seeded')
     out = []
-    for rid in ids:
-        pth = os.path.join(root, rid, 'patch.diff')
-        if os.path.exists(pth):
-            with open(pth) as fh:
-                out.append((f'refactor-{rid}', fh.read()))
+    for root in sorted(glob.glob(os.path.join(base, 'refactor*'))):
+        idx = os.path.join(root, 'index.json')
+        if not os.path.exists(idx):
+            continue
+        with open(idx) as fh:
+            ids = json.load(fh).get(pid, [])
+        for rid in ids:
+            pth = os.path.join(root, rid, 'patch.diff')
+            if os.path.exists(pth):
+                with open(pth) as fh:
+                    out.append((f'{os.path.basename(root)}-{rid}', fh.read()))
     return out
 
 
 def seed_entries(pid):
-    """breaking changes written by independent sub-agents (seeded/Cxx-mN): each must be reported by the check of its property"""
+    """breaking changes written by independent sub-agents (seeded/Cxx-mN, seeded/wave*/Cxx-mN): each must be reported by the
+    check of its property"""
     import glob
     import os
     root = os.path.join(os.path.dirname(os.path.dirname(os.path.abspath(__file__))), 'seeded')
     out = []
-    for d in sorted(glob.glob(os.path.join(root, f'{pid}-m*'))):
+    for d in sorted(glob.glob(os.path.join(root, f'{pid}-m*'))) + sorted(glob.glob(os.path.join(root, 'wave*', f'{pid}-m*'))):
         pth = os.path.join(d, 'patch.diff')
         if os.path.exists(pth):
+            tag = os.path.basename(os.path.dirname(d))
             with open(pth) as fh:
-                out.append((f'seed-{os.path.basename(d)}', fh.read()))
+                out.append((f'seed-{"" if tag == "seeded" else tag + "-"}{os.path.basename(d)}', fh.read()))
     return out
 
 
